@@ -180,6 +180,8 @@ func TestVerifC05Svcb(t *testing.T) {
 			Classes: []string{map[bool]string{true: "alpn-kept", false: "alpn-ignored"}[kept]},
 			MonitorOK: m == "", MonitorMsg: m, FindingKey: "svcb-param:alpn", Desc: map[string]any{"key": "alpn", "length": l}})
 	}
+	c05TxtCases(t, out, s, r)
+
 	// the other keys have no model; the property is evaluated directly
 	for _, kv := range [][2]string{{"ech", "AQIDBA=="}, {"ech", ""}, {"ech", "!!!"}, {"ech", strings.Repeat("QUJD", 30000)}, {"echconfig", "AQ=="}, {"echconfig", "?"},
 		{"mandatory", "alpn"}, {"mandatory", "nosuch"}, {"mandatory", ""}, {"no-default-alpn", ""}, {"no-default-alpn", "x"},
@@ -188,5 +190,118 @@ func TestVerifC05Svcb(t *testing.T) {
 			out.Emit(vfCase{ID: out.NextID(), Coq: vfApp("CAlpn", vfZ(1), vfBool(true)), Nontrivial: true, Classes: []string{"other-key"},
 				MonitorOK: false, MonitorMsg: m, FindingKey: "svcb-param:" + kv[0], Desc: map[string]any{"key": kv[0], "value": c05svShort(kv[1])}})
 		}
+	}
+}
+
+// c05TxtCases (round 9b): the value of a TXT $dnsrewrite rule goes through the
+// REAL txtStrings and ansFromDNSRewriteText.  Cases for Model/TxtStrings.v:
+// CTxt (value octets, the strings produced), CTxtRep (a value of n equal octets,
+// the lengths produced), CTxtAns (wire length of the owner name, length of the
+// value, whether an error came back).  Monitor: every string has at most 255
+// octets, their concatenation is the value, there is at least one; without an
+// error the record packs into a response and unpacks to the same strings; an
+// error comes back exactly when the record does not fit MaxMsgSize-512.
+func c05TxtCases(t *testing.T, out *vfOut, s *Server, r *vfRand) {
+	req := createTestMessageWithType("txt.example.", dns.TypeTXT)
+	const nameWire = 13 // 3 "txt" 7 "example" 0
+	check := func(v string) (strs []string, ok bool, msg string) {
+		strs = txtStrings(v)
+		ok = true
+		fail := func(f string, a ...any) {
+			if ok {
+				ok, msg = false, fmt.Sprintf("TXT value of %d octets: ", len(v))+fmt.Sprintf(f, a...)
+			}
+		}
+		if len(strs) == 0 {
+			fail("no character string at all")
+		}
+		for i, x := range strs {
+			if len(x) > 255 {
+				fail("character string %d has %d octets: the record cannot be packed and the query gets no reply", i, len(x))
+			}
+		}
+		if strings.Join(strs, "") != v {
+			fail("the strings do not add up to the value")
+		}
+		want := 1
+		if len(v) > 0 {
+			want = (len(v) + 254) / 255
+		}
+		if len(strs) != want {
+			fail("%d character strings, not %d", len(strs), want)
+		}
+		ans, err := s.ansFromDNSRewriteText(v, dns.TypeTXT, req)
+		fits := nameWire+10+len(v)+want <= dns.MaxMsgSize-512
+		switch {
+		case err == nil && !fits:
+			fail("no error although the record does not fit %d octets", dns.MaxMsgSize-512)
+		case err != nil && fits:
+			fail("error %v although the record fits", err)
+		case err == nil:
+			resp := (&dns.Msg{}).SetReply(req)
+			resp.Answer = append(resp.Answer, ans)
+			wire, perr := resp.Pack()
+			back := &dns.Msg{}
+			if perr != nil {
+				fail("the response with the record cannot be packed (%v): the query gets no reply", perr)
+			} else if uerr := back.Unpack(wire); uerr != nil {
+				fail("the packed response does not unpack: %v", uerr)
+			} else if txt, isTxt := back.Answer[0].(*dns.TXT); !isTxt || strings.Join(txt.Txt, "\x00|") != strings.Join(ans.(*dns.TXT).Txt, "\x00|") {
+				fail("the record does not come back from the wire as it was built")
+			}
+		}
+		out.Emit(vfCase{ID: out.NextID(), Coq: vfApp("CTxtAns", vfN(nameWire), vfN(uint64(len(v))), vfBool(err != nil)), Nontrivial: true,
+			Classes: []string{map[bool]string{true: "txt-too-long-error", false: "txt-answered"}[err != nil]}, MonitorOK: ok, MonitorMsg: msg,
+			FindingKey: "txt-rewrite:answer", Desc: map[string]any{"length": len(v)}})
+		return strs, ok, msg
+	}
+	// small values with awkward octets at the chunk boundary
+	odd := []string{"\\", "\"", "\x00", "\u00e9", "\u65e5", " ", ";", "\xff", "\n"}
+	lens := []int{0, 1, 2, 254, 255, 256, 257, 509, 510, 511, 512, 764, 765, 766}
+	for i := 0; i < out.Scale(6, 200); i++ {
+		lens = append(lens, r.Intn(1100))
+	}
+	for _, n := range lens {
+		for k := 0; k < 2; k++ {
+			b := []byte(strings.Repeat("t", n))
+			if k == 1 && n > 0 {
+				// put an awkward sequence across every boundary
+				for pos := 253; pos < n; pos += 255 {
+					o := odd[r.Intn(len(odd))]
+					copy(b[pos:], o)
+				}
+				o := odd[r.Intn(len(odd))]
+				copy(b[n-min(n, len(o)):], o)
+			}
+			v := string(b)
+			strs, ok, msg := check(v)
+			var obs []string
+			for _, x := range strs {
+				obs = append(obs, vfBytes(x))
+			}
+			cls := "txt-one-string"
+			if len(strs) > 1 {
+				cls = "txt-split"
+			}
+			if len(v)%255 == 0 && len(v) > 0 {
+				cls = "txt-exact-multiple"
+			}
+			out.Emit(vfCase{ID: out.NextID(), Coq: vfApp("CTxt", vfBytes(v), vfList("bytes", obs)), Nontrivial: len(v) > 0, Classes: []string{cls},
+				MonitorOK: ok, MonitorMsg: msg, FindingKey: "txt-rewrite:strings", Desc: map[string]any{"length": len(v), "odd_octets": k == 1}})
+		}
+	}
+	// long values: equal octets, the lengths of the strings
+	for _, n := range []int{5000, 64744, 64745, 64746, 64747, 64748, 65000, 65022, 65023, 65024, 65025, 65535, 70000} {
+		v := strings.Repeat("u", n)
+		strs, ok, msg := check(v)
+		var ls []string
+		for _, x := range strs {
+			ls = append(ls, vfN(uint64(len(x))))
+			if strings.Trim(x, "u") != "" && ok {
+				ok, msg = false, "a string holds octets that are not in the value"
+			}
+		}
+		out.Emit(vfCase{ID: out.NextID(), Coq: vfApp("CTxtRep", vfN(117), vfN(uint64(n)), vfList("N", ls)), Nontrivial: true, Classes: []string{"txt-long"},
+			MonitorOK: ok, MonitorMsg: msg, FindingKey: "txt-rewrite:strings", Desc: map[string]any{"length": n}})
 	}
 }
